@@ -343,3 +343,13 @@ def run(ck):
                 starts = [t for _, t in T.edges_of_value(ba, s2, cs.name == "ne")]
                 bad = T.t2_all_exits(ba, starts, [i for i, _, _ in stores])
                 ck.verdict(bad is None, "5", "T2-all-exits", ba, "unequal=>must-store", "the unequal edge always stores", "the unequal edge can return without storing Reregister", site=ba.where(cs.bb))
+    # ---- shared clauses demonstrated by seeding round 7 (the property broken from a distant module) --------------
+    from props import common as _c7
+    import importlib as _il
+    _m = lambda n: _il.import_module('props.' + n)
+    _c7.import_results(ck, _m("C20"), "4", "increment_version", "3")
+    _c7.import_results(ck, _m("C01"), "4", None, "3")
+    _c7.import_results(ck, _m("C07"), "2", None, "3")  # an unregistered Generic / Timer is inert: a Remove or Disable is applied once
+    _c7.import_results(ck, _m("C07"), "4", "DispatcherInner", "3")
+
+
